@@ -367,6 +367,31 @@ def gen_request_case(seed, i, engine):
     return core.Case("backend", lines, {"engine": engine})
 
 
+def gen_compact_order_case(seed, i, engine):
+    """compaction requests in ANY order - rising, falling, repeated, zero, far future - between ordinary writes; after each the
+    node must still create and read back a fresh key (and must not have left a begun write batch behind: core.leak_hit)"""
+    from ..gen import hx, rng_for
+    from .. import hist
+    r = rng_for(seed, "c20co/%d" % i)
+    lines = [hist.cfg_line(engine)]
+    n = r.randint(4, 9)
+    for j in range(n):
+        lines.append("create %s %s" % (hx(PREFIX_B + b"/co/%02d" % j), hx(b"v")))
+    lines += ["delete %s 0" % hx(PREFIX_B + b"/co/00"), "rev"]
+    top = hist.INIT + n + 1
+    revs = [r.randint(hist.INIT + 1, top) for _ in range(r.randint(3, 6))] + r.sample([0, 1, top + 50, 2 ** 62, top, top], 2)
+    r.shuffle(revs)
+    if r.random() < 0.7:
+        hi = max(x for x in revs if x <= top)
+        revs += [hi, hi - r.randint(1, 3)]          # always one falling pair inside the history
+    probes = 0
+    for rev in revs:
+        probes += 1
+        pk = PREFIX_B + b"/probe/" + (b"%04d" % probes)
+        lines += ["compact %d" % rev, "rev", "create %s %s" % (hx(pk), hx(b"p")), "rev", "get %s 0" % hx(pk)]
+    return core.Case("backend", lines, {"engine": engine, "compact_order": True})
+
+
 PREFIX_B = b"/r"
 
 
@@ -604,10 +629,11 @@ def check_requests(rep, tier, seed):
     engines = ["memkv", "badger", "tikv"]
     n = 30 if tier == "quick" else 900
     cases = [gen_request_case(seed, i, engines[i % 3]) for i in range(n)] + [split_byte_witness(e) for e in engines]
+    cases += [gen_compact_order_case(seed, i, engines[i % 3]) for i in range(6 if tier == "quick" else 120)]
     core.run_cases(cases)
     for c in cases:
         rep.count_case(c)
-        hit = request_oracle(c)
+        hit = core.leak_hit(c) or request_oracle(c)
         if hit:
             if core.handle_oracle_hit(rep, "C20", hit[1], c, hit[0], hit[1]):
                 return True
